@@ -34,9 +34,38 @@ def run_cases(prop_mod, cases, indices, ctx, deadline=None):
         seed_all(ctx.seed, ctx.prop, idx)
         try:
             prop_mod.run_case(case, ctx)
-        except Exception as e:  # a harness problem, never a verdict
-            ctx.error('run_case', e)
+        except Exception as e:
+            crash = library_crash(e)
+            if crash is not None:
+                # not a harness problem: the library itself fell over (a programming error raised
+                # from inside plinio/) while serving a request the check makes on every tree
+                ctx.violation('library-crash', crash)
+            else:       # a harness problem, never a verdict
+                ctx.error('run_case', e)
     ctx.case = None
+
+
+PROGRAMMING_ERRORS = (TypeError, AttributeError, IndexError, UnboundLocalError, NameError,
+                      ZeroDivisionError)
+
+
+def library_crash(exc):
+    """{'sig', 'exc', 'where'} if `exc` is a programming error whose innermost frame lies in the
+    library under test (plinio/), else None.  Deliberate refusals (ValueError, KeyError,
+    NotImplementedError, RuntimeError) and anything raised from harness or torch code stay harness
+    errors: they make the run inconclusive, never violated."""
+    import traceback
+    if not isinstance(exc, PROGRAMMING_ERRORS):
+        return None
+    frames = traceback.extract_tb(exc.__traceback__)
+    if not frames:
+        return None
+    inner = frames[-1]
+    marker = os.sep + 'plinio' + os.sep
+    if marker not in inner.filename or os.sep + 'vf' + os.sep in inner.filename:
+        return None
+    return {'sig': type(exc).__name__ + ':' + os.path.basename(inner.filename) + ':' + inner.name,
+            'exc': repr(exc)[:300], 'where': f'{inner.filename}:{inner.lineno}'}
 
 
 def main(argv=None):
